@@ -114,6 +114,19 @@ package datacoding
 //@   props C06
 //@   ensures result == "GSM 7-bit (Unpacked)"
 
+// Packed GSM 7-bit: Encode = Pack after the alphabet encoder, Decode = the alphabet decoder after Unpack; both composed
+// from the contracts of the four functions in gsm7encoding (alphabet level proved against the tables, bit level in C08).
+//@ func (s GSM7Packed) Encode
+//@   props C05,C03
+//@   ensures [C05 repertoire] (result1 == nil) <==> gsm7encoding.gsmokfrom(s, 0)
+//@   ensures [C05 image] result1 == nil ==> result0 == packimg(gsm7encoding.gsmseq(s, 0))
+//@   ensures [C05 refuse] result1 != nil ==> len(result0) == 0
+
+//@ func (s GSM7Packed) Decode
+//@   props C05,C03
+//@   ensures [C05 accepts] (result1 == nil) <==> gsm7encoding.gsmwf(unpackimg(s))
+//@   ensures [C05 text] result1 == nil ==> result0 == gsm7encoding.gsmtext(unpackimg(s))
+
 //@ func (s GSM7Packed) SplitBy
 //@   props C06,C07
 //@   ensures maxLen == 160 && splitBy == 153
